@@ -3,6 +3,6 @@
 cd /repo
 sed -i "$3" "$2"
 if git diff --quiet; then echo "MUTATION DID NOT APPLY"; exit 1; fi
-cd /verif && timeout 900 ./check $1 quick 2>&1 | tail -2 | cut -c1-200
+cd /verif && VERIF_NO_EVIDENCE=1 timeout 1800 ./check $1 quick 2>&1 | tail -2 | cut -c1-200
 git -C /repo checkout -- .
 rm -f /verif/replays/*
